@@ -1,7 +1,8 @@
 """Generators, protocol helpers and canonicalisation for the structure properties (C06, C07).
 
-A case = a real directory tree under a vlib.Sandbox (`proj/t/...`, scan root spelled `t` so that
-root-anchored scopes match both at the raw and at the normalised matching sites; D7 is out of scope here)
+A case = a real directory tree under a vlib.Sandbox (`proj/t/...`, scan root spelled `t` or `./t`: since
+fixes/D07 every pattern site matches the normalised path, so both spellings must behave alike and a scope or
+exclude pattern written with a leading `./` matches nothing)
 + a `[structure]` configuration (`proj/.sloc-guard.toml`) + a back-end (walkdir / ignore).
 Three parties look at it:
   * the implementation: library pipeline through `sgv-structure case` (full dir_stats map) and the real CLI
@@ -468,28 +469,28 @@ def cols_sx(o, ign):
     g = o["g"]
     oz = lambda v: [] if v is None else [v]
     return [sx_bool(ign), sx_bool(o["se_name"]), sx_bool(o["se_path"]), sx_bool(o["se_dir"]), sx_bool(o["ce_name"]), sx_bool(o["ce_path"]),
-            [sx_bool(b) for b in o["lim"]], [sx_bool(b) for b in o["plc"]],
+            [sx_bool(b) for b in o["lim"]],
             [sx_bool(g[0]), sx_bool(g[1])] + [oz(v) for v in g[2:]],
             [[sx_bool(r[0]), sx_bool(r[1]), sx_bool(r[2]), sx_bool(r[3]), oz(r[4]), oz(r[5]), oz(r[6]), oz(r[7]), sx_bool(r[8])] for r in o["r"]],
             [[sx_bool(b) for b in row] for row in o["sib"]]]
 
 
-def tree_sx(n, oracle):
+def tree_sx(n, oracle, spell=""):
     k = {"f": 0, "d": 1, "o": 2}[n.kind]
-    return [k, sx_str(n.name), cols_sx(oracle[n.path], n.ign), [tree_sx(c, oracle) for c in n.children]]
+    return [k, sx_str(n.name), cols_sx(oracle[spell + n.path], n.ign), [tree_sx(c, oracle, spell) for c in n.children]]
 
 
-def case_sx(cfg, root, impl, perm):
-    return [cfg.sx(), [sx_bool(b) for b in impl["rp"]], [sx_bool(b) for b in impl["rl"]], tree_sx(root, impl["oracle"]), perm]
+def case_sx(cfg, root, impl, perm, spell=""):
+    return [cfg.sx(), [sx_bool(b) for b in impl["rl"]], tree_sx(root, impl["oracle"], spell), perm]
 
 
-def n_entries(root, impl):
+def n_entries(root, impl, spell=""):
     """number of entries the walk yields according to the oracle columns (for the permutation)"""
     o = impl["oracle"]
     cnt = [0]
 
     def go(n):
-        c = o[n.path]
+        c = o[spell + n.path]
         if n.ign:
             return
         if n.kind == "d":
@@ -602,7 +603,16 @@ def decode_outcome(sx, cfg):
     return d
 
 
-def decode_impl(impl):
+def decode_impl(impl, spell=""):
+    if spell:
+        cut = lambda p: p[len(spell):] if p.startswith(spell) else p
+        impl = dict(impl)
+        impl["stats"] = [[cut(s_[0])] + list(s_[1:]) for s_ in impl["stats"]]
+        impl["files"] = [cut(f) for f in impl["files"]]
+        for k in ("placement", "limits", "siblings"):
+            impl[k] = [dict(v, path=cut(v["path"])) for v in impl[k]]
+        impl["explain"] = {cut(p): e for p, e in impl["explain"].items()}
+
     def ex(e):
         m = e["matched"]
         idx = m.get("index") if isinstance(m, dict) and m.get("type") == "rule" else None
@@ -632,6 +642,10 @@ def scope_pool(rng, root):
         a, b = rng.sample(dirs, 2)
         out.append("{%s,%s}" % (a.path, b.path))
         out.append("{%s,%s}/**" % (a.path, b.path))
+    # the same scopes written with a leading ./ : they match nothing (patterns see the normalised path)
+    for d in rng.sample(dirs, min(len(dirs), 3)):
+        out += ["./" + d.path, "./" + d.path + "/**"]
+    out += ["./t", "./t/**", "./**"]
     return out
 
 
@@ -645,7 +659,9 @@ def gen_excludes(rng, cfg, root):
         if r < 0.45:
             return ("ext", rng.choice([".md", ".tmp", ".bin", ".gitkeep", ".rs", ".ign"]))
         if r < 0.6 and n and n.kind == "d":
-            return ("under", n.path)
+            return ("under", ("./" if rng.random() < 0.25 else "") + n.path)
+        if r < 0.64 and n:
+            return ("lit", ("./" if rng.random() < 0.4 else "") + n.path)
         if r < 0.75 and n:
             return ("any", n.name)
         if r < 0.88:
@@ -835,13 +851,14 @@ def new_case(rng, flavour, backend=None, bad=False):
             for k in ("deny_extensions", "deny_patterns", "deny_files", "deny_dirs"):
                 cfg.lists[k] = []
     return {"root": root, "gis": gis, "cfg": cfg, "backend": backend or rng.choice(["walkdir", "ignore"]),
-            "flavour": "bad" if bad else flavour, "bad": bad, "perm_seed": rng.getrandbits(32)}
+            "flavour": "bad" if bad else flavour, "bad": bad, "perm_seed": rng.getrandbits(32),
+            "spell": rng.choice(["", "", "./"])}
 
 
 def case_key(c):
     h = _hl.sha256()
     h.update(c["cfg"].toml().encode())
-    h.update(c["backend"].encode())
+    h.update((c["backend"] + c.get("spell", "")).encode())
     for n in c["root"].walk():
         h.update(("%s|%s|%s\n" % (n.path, n.kind, n.otype)).encode())
     for d, lines in c["gis"]:
@@ -879,8 +896,9 @@ def run_batch(exes, cases, cli_idx=(), explain_dirs=2, rng=None):
             c["toml"] = c["cfg"].toml()
             materialise(sb, c["root"], c["gis"], c["toml"])
             apply_gitignore(c["root"], c["gis"], c["backend"] == "ignore")
-            lines.append(json.dumps({"proj": sb.proj, "root": ROOT_NAME, "gitignore": c["backend"] == "ignore",
-                                     "nodes": [[n.path, n.kind] for n in c["root"].walk()]}))
+            sp = c.setdefault("spell", "")
+            lines.append(json.dumps({"proj": sb.proj, "root": sp + ROOT_NAME, "gitignore": c["backend"] == "ignore",
+                                     "nodes": [[sp + n.path, n.kind] for n in c["root"].walk()]}))
         env = clean_env(home.home)
         outs = _shard(harness, lines, ["case"], env)
         mlines, midx = [], []
@@ -890,17 +908,17 @@ def run_batch(exes, cases, cli_idx=(), explain_dirs=2, rng=None):
             except Exception:
                 c["impl"] = {"fatal": o[:300]}
             if "oracle" in c["impl"]:
-                n = n_entries(c["root"], c["impl"])
+                n = n_entries(c["root"], c["impl"], c["spell"])
                 perm = list(range(n))
                 _r.Random(c["perm_seed"]).shuffle(perm)
-                c["sx"] = case_sx(c["cfg"], c["root"], c["impl"], perm)
+                c["sx"] = case_sx(c["cfg"], c["root"], c["impl"], perm, c["spell"])
                 mlines.append("run " + sx_dump(c["sx"]))
                 midx.append(i)
             elif "cfg_err" in c["impl"] and c["impl"].get("stage") == "context":
                 # rejected by StructureChecker::new: the model only needs the configuration
-                dummy = [1, sx_str(ROOT_NAME), cols_sx({"se_name": 0, "se_path": 0, "se_dir": 0, "ce_name": 0, "ce_path": 0, "lim": [], "plc": [],
+                dummy = [1, sx_str(ROOT_NAME), cols_sx({"se_name": 0, "se_path": 0, "se_dir": 0, "ce_name": 0, "ce_path": 0, "lim": [],
                                                        "g": [0, 0, None, None, None, None, None, None], "r": [], "sib": []}, False), []]
-                c["sx"] = [c["cfg"].sx(), [], [], dummy, []]
+                c["sx"] = [c["cfg"].sx(), [], dummy, []]
                 mlines.append("run " + sx_dump(c["sx"]))
                 midx.append(i)
         mouts = _shard(model, mlines, [], None)
@@ -915,21 +933,23 @@ def run_batch(exes, cases, cli_idx=(), explain_dirs=2, rng=None):
         # ---- CLI
         def cli(i):
             c, sb = cases[i], boxes[i]
-            args = ["check", ROOT_NAME, "--format", "json", "--no-sloc-cache", "--color", "never"]
+            sp = c["spell"]
+            args = ["check", sp + ROOT_NAME, "--format", "json", "--no-sloc-cache", "--color", "never"]
             if c["backend"] == "walkdir":
                 args.append("--no-gitignore")
             rc, out, err = sb.run(sgcli, args, env={"RAYON_NUM_THREADS": "2"})
             res = {"rc": rc, "err": err[-400:], "explain": {}}
             try:
-                res["results"] = sorted(canon_cli_results(json.loads(out)), key=repr)
+                res["results"] = sorted(((v[0][len(sp):] if sp and v[0].startswith(sp) else v[0],) + v[1:] for v in canon_cli_results(json.loads(out))), key=repr)
             except Exception:
                 res["results"] = None
                 res["raw"] = out[-400:]
             dirs = [p for p in (c.get("model") or {}).get("explain", {})]
             rr = _r.Random(c["perm_seed"])
             rr.shuffle(dirs)
-            for d in dirs[:explain_dirs]:
-                rc2, out2, err2 = sb.run(sgcli, ["explain", d, "--format", "json", "--color", "never"])
+            for k_, d in enumerate(dirs[:explain_dirs]):
+                # explain is asked with either spelling, whatever the scan root's spelling was
+                rc2, out2, err2 = sb.run(sgcli, ["explain", ("./" if (k_ + len(dirs)) % 2 else "") + d, "--format", "json", "--color", "never"])
                 try:
                     j = json.loads(out2)
                     m = j["matched_rule"]
@@ -956,7 +976,7 @@ def describe(c):
     """everything needed to rebuild the case (replay files, samples)"""
     return {"toml": c["cfg"].toml(), "backend": c["backend"], "flavour": c["flavour"],
             "nodes": [[n.path, n.kind, n.otype] for n in c["root"].walk()],
-            "gitignores": [[d.path, lines] for d, lines in c["gis"]], "perm_seed": c["perm_seed"]}
+            "gitignores": [[d.path, lines] for d, lines in c["gis"]], "perm_seed": c["perm_seed"], "spell": c.get("spell", "")}
 
 
 def rebuild(desc, cfg):
@@ -975,7 +995,7 @@ def rebuild(desc, cfg):
     assign_paths(root)
     gis = [(by[p], lines) for p, lines in desc["gitignores"]]
     return {"root": root, "gis": gis, "cfg": cfg, "backend": desc["backend"], "flavour": desc["flavour"], "bad": desc["flavour"] == "bad",
-            "perm_seed": desc["perm_seed"]}
+            "perm_seed": desc["perm_seed"], "spell": desc.get("spell", "")}
 
 
 def diff_list(a, b):
@@ -1009,8 +1029,41 @@ def evaluate(c):
     if not m["ok"]:
         r["corr"]["config_ok"] = {"impl": "accepted", "model": "rejected"}
         return r
-    d = decode_impl(impl)
+    sp = c.get("spell", "")
+    d = decode_impl(impl, sp)
     c["dimpl"] = d
+    # ---- every site answers the scope question alike: harness column (scope glob on the normalised path),
+    #      AllowlistRule::matches_directory (placement site), explain's rule chain (limit site)
+    sites = {}
+    lit_bad = []
+    META = set("*?[{")
+    for n in c["root"].walk():
+        if n.kind != "d":
+            continue
+        o_ = impl["oracle"][sp + n.path]
+        if impl["scan_enabled"] and o_["plc"] != o_["lim"]:
+            sites[n.path] = {"column": o_["lim"], "placement_site": o_["plc"]}
+        e_ = impl["explain"].get(sp + n.path)
+        if e_ is not None:
+            if e_["chain"] != o_["lim"]:
+                sites[n.path] = {"column": o_["lim"], "limit_site": e_["chain"]}
+            # the generator's own reading of LITERAL scopes: a literal scope matches exactly the directory whose
+            # project-relative path it spells; written with a leading ./ it matches nothing
+            for i, r_ in enumerate(c["cfg"].rules):
+                s_ = r_["scope"]
+                if not (set(s_) & META) and "\\" not in s_ and i < len(e_["chain"]):
+                    if e_["chain"][i] != (s_ == n.path):
+                        lit_bad.append({"dir": sp + n.path, "rule": i, "scope": s_, "impl_matches": e_["chain"][i], "expected": s_ == n.path})
+    if impl["scan_enabled"] and impl["rp"] != impl["rl"]:
+        sites["<root parent>"] = {"column": impl["rl"], "placement_site": impl["rp"]}
+    if sites:
+        r["corr"]["scope-sites"] = sites
+    if lit_bad:
+        r["prop"]["scope-spelling"] = lit_bad[:6]
+    if sp:
+        r["tags"].add("root-spelled-dot-slash")
+    if any(r_["scope"].startswith("./") for r_ in c["cfg"].rules):
+        r["tags"].add("scope-spelled-dot-slash")
     # ---- correspondence
     for k in ("stats", "placement", "limits", "siblings") + (("files",) if impl["scan_enabled"] else ()):
         if d[k] != m[k]:
@@ -1069,6 +1122,8 @@ def evaluate(c):
     if any(n.ign for n in c["root"].walk()):
         tg.add("ignored-entries")
     o = impl["oracle"]
+    if any(glob(p_).startswith("./") for p_ in c["cfg"].eff_scanner_exclude() + c["cfg"].count_exclude):
+        tg.add("exclude-spelled-dot-slash")
     if any(v["se_name"] or v["se_path"] or v["se_dir"] for v in o.values()):
         tg.add("scanner-excluded")
     if any(v["ce_name"] or v["ce_path"] for v in o.values()):
@@ -1107,8 +1162,10 @@ def placement_lists_present(cfg):
 
 
 # --------------------------------------------------------------------------- checkmap (arbitrary DirStats maps)
-MAP_PATHS = ["src", "src/a", "src/a/b", "src/a/b/c", "lib", "lib/x", "tests", "tests/unit/deep", "a/b/c/d/e", ".", "./src", "", "src/gen", "x y/z"]
-MAP_SCOPES = ["**", "src", "src/**", "src/*", "src/a/**", "**/a", "lib", "*", "tests/**", "{src,lib}", "{src,lib}/**", "src/?", "./src", "a/b/**"]
+MAP_PATHS = ["src", "src/a", "src/a/b", "src/a/b/c", "lib", "lib/x", "tests", "tests/unit/deep", "a/b/c/d/e", ".", "./src", "", "src/gen", "x y/z",
+             "./src/a", "./lib", "./tests/unit/deep", "./a/b/c/d/e"]
+MAP_SCOPES = ["**", "src", "src/**", "src/*", "src/a/**", "**/a", "lib", "*", "tests/**", "{src,lib}", "{src,lib}/**", "src/?", "./src", "a/b/**",
+              "./src/**", "./lib", "./**", "src/a", "lib/x"]
 
 
 def gen_mapcase(rng):
@@ -1212,6 +1269,21 @@ def eval_mapcase(m):
         it = (mm.get("index") if isinstance(mm, dict) and mm.get("type") == "rule" else None, ie["max_files"], ie["max_dirs"], ie["max_depth"], int(ie["warn_bits"]))
         if it != me:
             r["corr"].setdefault("explain", {})[p] = {"impl": it, "model": me}
+    # every site sees the normalised key: harness column == explain's own rule chain, and a LITERAL scope matches
+    # exactly the key it spells once one leading ./ is dropped (the generator's own reading)
+    META = set("*?[{")
+    for p, ie in impl["explain"].items():
+        if ie["chain"] != impl["scopes"][p]:
+            r["corr"].setdefault("scope-sites", {})[p] = {"column": impl["scopes"][p], "limit_site": ie["chain"]}
+        norm = "" if p in (".", "./") else (p[2:] if p.startswith("./") else p)
+        for i, r_ in enumerate(cfg.rules):
+            s_ = r_["scope"]
+            if not (set(s_) & META) and i < len(ie["chain"]) and ie["chain"][i] != (s_ == norm):
+                r["prop"].setdefault("scope-spelling", []).append({"key": p, "rule": i, "scope": s_, "impl_matches": ie["chain"][i], "expected": s_ == norm})
+        if p.startswith("./") or p == ".":
+            r["tags"].add("key-spelled-dot-slash")
+    if any(r_["scope"].startswith("./") for r_ in cfg.rules):
+        r["tags"].add("scope-spelled-dot-slash")
     for v in iv:
         r["tags"].add(("warn:" if v[5] else "fail:") + v[1])
     if any(sum(s) >= 2 for s in impl["scopes"].values()):
@@ -1313,10 +1385,10 @@ def load_structure_corpus():
 
 
 # --------------------------------------------------------------------------- the check shared by C06 and C07
-C06_PARTS = {"corr": ("stats", "limits", "explain", "cli-explain", "config_ok", "model", "cli", "cli-run"),
-             "prop": ("counts", "limits", "valid-config-rejected", "invalid-config-accepted")}
-C07_PARTS = {"corr": ("files", "placement", "siblings", "config_ok", "model", "cli", "cli-run"),
-             "prop": ("placement", "file-reported-twice", "rule-consulted", "valid-config-rejected", "invalid-config-accepted")}
+C06_PARTS = {"corr": ("stats", "limits", "explain", "cli-explain", "config_ok", "model", "cli", "cli-run", "scope-sites"),
+             "prop": ("counts", "limits", "scope-spelling", "valid-config-rejected", "invalid-config-accepted")}
+C07_PARTS = {"corr": ("files", "placement", "siblings", "config_ok", "model", "cli", "cli-run", "scope-sites"),
+             "prop": ("placement", "file-reported-twice", "rule-consulted", "scope-spelling", "valid-config-rejected", "invalid-config-accepted")}
 
 
 def run_structure(ctx, prop, prop_files, flavours, n_cases, n_cli_every, n_maps, nontrivial):
